@@ -31,6 +31,7 @@ macro_rules! dispatch {
             "C07" => runner::$f::<props::c07::P>($($arg),*),
             "C08" => runner::$f::<props::c08::P>($($arg),*),
             "C09" => runner::$f::<props::c09::P>($($arg),*),
+            "C16" => runner::$f::<props::c16::P>($($arg),*),
             "C17" => runner::$f::<props::c17::P>($($arg),*),
             "C10" => runner::$f::<props::c10::P>($($arg),*),
             "C12" => runner::$f::<props::c12::P>($($arg),*),
